@@ -96,21 +96,21 @@ def run_case(cls, key, seed, ctx):
     mu, beta = RC.fit(X, sens_pos)
     exp = RC.transform(X, sens_pos, mu, beta, alpha)
     ctx.ev("train_outputs_compared")
-    if not ctx.check(out.shape == exp.shape, "output_shape_wrong", got=list(out.shape), expected=list(exp.shape), **wit):
+    if not ctx.check(out.shape == exp.shape, "output_shape_wrong", got=list(out.shape), expected=list(exp.shape), wit=wit):
         return
     ctx.check(bool(np.allclose(out, exp, rtol=1e-7, atol=tol)), NK if noisy else "fit_transform_differs_from_least_squares_residual_blend",
-              max_abs_err=float(np.abs(out - exp).max()), tol=tol, **wit)
+              max_abs_err=float(np.abs(out - exp).max()), tol=tol, wit=wit)
     if alpha == 0.0:
-        ctx.check(bool(np.allclose(out, X[:, others], rtol=0, atol=1e-12 * scale)), "alpha0_changes_or_reorders_columns", **wit)
+        ctx.check(bool(np.allclose(out, X[:, others], rtol=0, atol=1e-12 * scale)), "alpha0_changes_or_reorders_columns", wit=wit)
     if alpha == 1.0:
         Sc = S - S.mean(axis=0)
         cov = (out - out.mean(axis=0)).T @ Sc / max(1, n - 1)
         ctx.ev("covariances_checked", int(cov.size))
         ctx.check(float(np.abs(cov).max()) <= tol, NK if noisy else "output_covariance_with_sensitive_column_not_zero", max_abs_cov=float(np.abs(cov).max()),
-                  tol=tol, **wit)
+                  tol=tol, wit=wit)
     # transform on the training data again and on new data
     again = np.asarray(cr.transform(Xin))
-    ctx.check(bool(np.allclose(again, out, rtol=1e-9, atol=tol * 1e-2)), NK if noisy else "transform_on_training_data_differs_from_fit_transform", **wit)
+    ctx.check(bool(np.allclose(again, out, rtol=1e-9, atol=tol * 1e-2)), NK if noisy else "transform_on_training_data_differs_from_fit_transform", wit=wit)
     m = int(rng.integers(1, 9))
     X1, _ = gen_matrix(rng, m, X.shape[1])
     X2, _ = gen_matrix(rng, m, X.shape[1])
@@ -124,14 +124,14 @@ def run_case(cls, key, seed, ctx):
         ctx.ev("new_data_outputs_compared")
         e1 = RC.transform(X1, sens_pos, mu, beta, alpha)
         ctx.check(bool(np.allclose(o1, e1, rtol=1e-6, atol=toln)), "transform_on_new_data_is_not_the_learned_affine_map",
-                  max_abs_err=float(np.abs(o1 - e1).max()), tol=toln, **wit)
+                  max_abs_err=float(np.abs(o1 - e1).max()), tol=toln, wit=wit)
     if noisy:
         return
     a = float(rng.uniform(-1, 2))
     o3 = tr(a * X1 + (1 - a) * X2)
     ctx.ev("affinity_checks")
     ctx.check(bool(np.allclose(o3, a * o1 + (1 - a) * o2, rtol=1e-6, atol=toln * 10)), "transform_is_not_affine",
-              max_abs_err=float(np.abs(o3 - (a * o1 + (1 - a) * o2)).max()), **wit)
+              max_abs_err=float(np.abs(o3 - (a * o1 + (1 - a) * o2)).max()), wit=wit)
 
 
 def run_refit(ctx, rng, CorrelationRemover, X, sens_pos, names, alpha, tol, wit):
@@ -160,4 +160,4 @@ def run_refit(ctx, rng, CorrelationRemover, X, sens_pos, names, alpha, tol, wit)
     scale = (1.0 + float(np.abs(Bm).max())) ** 2
     ctx.ev("train_outputs_compared")
     ctx.check(out.shape == exp.shape and bool(np.allclose(out, exp, rtol=1e-7, atol=1e-8 * scale)), "refit_does_not_learn_what_a_fresh_fit_learns",
-              reordered_dataframe=use_df, permutation=perm, **wit)
+              reordered_dataframe=use_df, permutation=perm, wit=wit)
